@@ -38,6 +38,7 @@ def main():
     ap.add_argument("--notes")
     ap.add_argument("--needs", default="")
     ap.add_argument("--skip-tests", action="store_true")
+    ap.add_argument("--extra", action="append", default=[], help="helper module the demonstration imports (copied next to it)")
     a = ap.parse_args()
     wt = tempfile.mkdtemp(prefix="seedverify-")
     os.rmdir(wt)
@@ -48,6 +49,8 @@ def main():
         env = dict(os.environ, PYTHONPATH=wt)
         # demo on the clean tree
         shutil.copy(a.demo, os.path.join(wt, "_demo.py"))
+        for x in a.extra:
+            shutil.copy(x, os.path.join(wt, os.path.basename(x)))
         rc0, out0 = sh(f"{PY} -W ignore _demo.py", cwd=wt, env=env, timeout=900)
         meta["ran"].append({"cmd": "demo on clean tree", "rc": rc0, "tail": out0[-300:]})
         rc, out = sh(f"git -C {wt} apply --whitespace=nowarn {os.path.abspath(a.patch)}")
@@ -101,6 +104,8 @@ def finish(a, meta, keep):
         os.makedirs(d, exist_ok=True)
         shutil.copy(a.patch, os.path.join(d, "patch.diff"))
         shutil.copy(a.demo, os.path.join(d, "demo.py"))
+        for x in a.extra:
+            shutil.copy(x, os.path.join(d, os.path.basename(x)))
         if a.notes and os.path.exists(a.notes):
             shutil.copy(a.notes, os.path.join(d, "NOTES.md"))
         with open(os.path.join(d, "meta.json"), "w") as fh:
